@@ -9,11 +9,11 @@ NOTE = ("trusted: Coq kernel + VM; the Rust->Gallina transcription (sampled by t
         "sub-domains, and on inputs retained by a coverage-guided search of the tree under test); extraction (ExtrOcamlBasic only) + OCaml glue; Rust harness printer; nom/heapless/core semantics as modelled")
 claimed = {
  'C04': ('layout theorems and round trips from field values, also through armouring, fragmentation and framing (Coq) + differential correspondence', '6 C04', 'per type the decoded message equals the ITU layout function of the payload bits (type 15: at every length, the positional specification interrogation_of)'),
- 'C09': ('dispatch theorem (Coq, 64-way case split) + differential correspondence', '6 C09', ''),
+ 'C09': ('dispatch theorem (Coq, 64-way case split) + differential correspondence (a panic or non-returning call on an unsupported type counts: it is not an error value)', '6 C09', ''),
  'C02': ('grammar/checksum theorems (Coq) + differential correspondence on outcome and checksum values', '6 C02', ''),
  'C06': ('invariant of a ghost-instrumented state machine by induction over histories (Coq) + exhaustive short histories and random long ones against the implementation', '6 C06', ''),
  'C07': ('sentence-shape theorems (Coq) + differential correspondence on sentence fields, the two address tables exhaustively (2^16 talkers, 2^24 report types) and every adjacent byte pair through digest sweeps', '6 C07', ''),
- 'C08': ('accepted <-> WellFormed, both directions; u8::from_str and nom hex_u32 transcribed and proved equal to the model (Coq) + mutation / near-miss correspondence and every adjacent byte pair of several sentence shapes (digest sweeps)', '6 C08', ''),
+ 'C08': ('accepted <-> WellFormed, both directions; u8::from_str and nom hex_u32 transcribed and proved equal to the model (Coq) ; TAG block, leading bytes and trailer irrelevance theorems (Coq) + mutation / near-miss correspondence and every adjacent byte pair of several sentence shapes (digest sweeps)', '6 C08', ''),
  'C01': ('no-Panic theorems over an executable model in which every panicking Rust operation is an explicit Panic result (Coq) + catch_unwind/watchdog runs of debug and release builds of the three feature sets', '6 C01', 'partial for the runtime: memory safety and termination of the implementation itself are sampled, not proved'),
  'C03': ('equality of the buffer algorithm with the 6-bit unpacking specification for all strings and fills (Coq: induction four characters at a time + finite sweeps) + exhaustive byte/phase/fill correspondence', '6 C03', ''),
  'C19': ('theorems pinning the as-is value, refuting the property on a witness and proving it for the repaired model (Coq) + three-way correspondence (impl / as-is model / repaired model); known finding', '6 C19', 'the unchanged tree violates the property: recorded as a known finding'),
@@ -26,7 +26,7 @@ claimed = {
  'C05': ('in-order reassembly theorem from any state for any n >= 2 and transmit-then-receive theorem over a specification-side transmitter (Coq, induction over the fragment list) + groups of 2..12 fragments under five kinds of prior history with interleaved lines and the Option/Result conversions', '6 C05', ''),
  'C14': ('per-type length thresholds and element counts as functions of the number of bits present (Coq) + every type x every byte length', '6 C14', ''),
  'C18': ('std = alloc by computation; no-alloc refines std up to Nmea rejection at message, unarmor, sentence and step level (Coq) + three (thorough: six) builds run on the other properties\' streams and capacity boundaries', '6 C18', 'std-vs-alloc Rust builds are tied by correspondence, not proof'),
- 'C20': ('theorems about the CLI loop as a function of stdin bytes (Coq) + the real binary run through pipes, compared record by record with the model and with the library in process', '6 C20', 'partial for the runtime: read errors, closed stdout, exit status are observed on the binary, not modelled'),
+ 'C20': ('theorems about the CLI loop as a function of stdin bytes (Coq) + the real binary run through pipes, compared record by record with the model and with the library in process, and every stream re-run without its rejected lines / unfragmented sentences (the records of the other lines must not change)', '6 C20', 'partial for the runtime: read errors, closed stdout, exit status are observed on the binary, not modelled'),
  'C17': ('state-transparency theorems lifted to histories, independence of two instances on interleaved histories (Coq) + metamorphic insert/remove runs and two-parser interleavings', '6 C17', 'that the implementation keeps no state outside the parser value is what the interleaving runs check'),
 }
 pending = {}
